@@ -173,6 +173,8 @@ def check_compare(P, R, clsname, meth, fields, rule="FIELDS.eq"):
                 txt = {src(p) for p in parts}
                 if f"{me}.{fld}" in txt and f"{other}.{fld}" in txt:
                     found = True
+                    if isinstance(n, ast.Compare) and not all(isinstance(o, ast.Eq) for o in n.ops):
+                        R.violation(rule + "-op", f.key, src(n), f"field {fld} is compared with `{type(n.ops[0]).__name__}` instead of ==: equal statistics compare unequal (or unequal ones equal)", n.lineno)
         R.check(found, rule, f.key, f"{me}.{fld} vs {other}.{fld}", "compared", f"{meth} does not compare field {fld}: unequal statistics compare equal")
     # conjunction: any disagreement must make the result false
     for r in rets:
